@@ -6,8 +6,8 @@ import json, subprocess
 CLAIMS = {
  "C01": ("version arithmetic for every int32 pair; Bucket.set/get/incr and HStore.Get/Incr glue over abstract tree and log views: a read returns the record the tree points at with the tree's version, bytes and client flags equal to what was appended at that position; readRecordAt accepts only intact records (shared with C09)",
          "protocol-level contract for Bucket.checkAndSet (revision rule wherever the tree's version changes, NOT_FOUND, buffer accounting); its full functional contract (whole-view postconditions) was beyond the solvers (about 10% of its obligations stay undecided within practical solver time); the tree (HTree.get/set), the data store (AppendRecord/GetRecordByPos) and the hint manager enter through ASSUMED interface contracts over ghost views; scope: keys without hash collisions; StorageClient/protocol status mapping not under contract"),
- "C08": ("leaf level of the merkle tree: item codec round trip, key-hash truncation and reconstruction from the node path for every path length (pins KHASH_LENS), leaf Set/Get/Remove against the byte sequence for key-hash lengths 5..8, leaf-node (count, hash) delta contracts of setToLeaf/remvoeFromLeaf",
-         "not under contract: inner-node aggregation (updateNodes, recursive), listing (listDir/ListDir), upper tree, dump/load; the C leaf memory (ToBytes/enlarge) and findInBytes (C branch) are assumed, the Go branch of findInBytes is verified on a verbatim ghost copy; history independence rests on the map-sum equations proved in Lean (lemmas/MapSum.lean) applied to the delta contracts"),
+ "C08": ("leaf level of the merkle tree: item codec round trip, key-hash truncation and reconstruction from the node path for every path length (pins KHASH_LENS), leaf Set/Get/Remove against the byte sequence for key-hash lengths 5..8, leaf-node (count, hash) delta contracts of setToLeaf/remvoeFromLeaf; node levels: leaf location from the path digits for every depth 0..2 and height 1..8, and (variant contracts of HTree.remove/setReq, body only) every inner node on a written key's path is marked for recomputation; upper tree: the node of a bucket carries the bucket's root iff the bucket is served, else zero, and an upper listing reports the 16 children of the node named by the path",
+         "not under contract: inner-node aggregation (the fold over 16 children in updateNodes/updateNodesUpper: obligations generated, not decided by the solvers), listing inside a bucket (listDir/ListDir), dump/load, Bucket.open; callers of the variant contracts are not checked against their preconditions; the C leaf memory (ToBytes/enlarge) and findInBytes (C branch) are assumed, the Go branch of findInBytes is verified on a verbatim ghost copy; history independence rests on the map-sum equations proved in Lean (lemmas/MapSum.lean) applied to the delta contracts"),
  "C09": ("record sizes/padding, header codec round trip, WriteRecord.append byte-exact stream layout incl. zero padding, readRecordAt returns a record iff the file bytes at the offset are an intact record (sizes admissible, extent inside the file, stored CRC equal to the CRC of header[4:24]+key+value, via a verified CRC-fold lemma), sequential Next/nextValid return the FIRST intact 256-aligned record at or after the position, its bytes, and continue right behind its padding",
          "assumed: ghost file system (os.File/bufio/io models), C CRC loop (table proved, step lemma proved, loop bounded-checked); I/O errors other than end-of-file are excluded for the scanner (reliable_io)"),
  "C10": ("flag/ownership logic around compression is the identity for clients given the assumed QuickLZ codec relation; value hash taken from the uncompressed bytes; safe decompress entry points and C<->Go round trips (incl. matches at the format's offset/length thresholds) as bounded stand-ins",
@@ -20,8 +20,8 @@ CLAIMS = {
          "not under contract: Bucket.get's collision branch (verified only in the no-collision scope), GC's use of collision information, restart (tombstone replay, design finding F11 not re-derived)"),
  "C14": ("hint file header and item codec (writer appends exactly the item encoding, reader decodes the item at its offset), lookup uses the reader in sync with its logical offset and returns only an item with exactly the wanted (hash,key), comparison orders (byKeyHash, mergeHeap, Position.CmpKey monotone), merge writer flush",
          "not under contract: HintBuffer.Dump ordering, index-row well-formedness and completeness of get (item found iff present), merge() main loop, mergeWriter.write (contract exists, one conjunct at the solver limit, not in the check); sort/heap are library contracts"),
- "C15": ("path digits, bucket id = leading digits, InitTree derived configuration for 1/16/256 buckets, path parsing; every depth 0..2 enumerated; HStore.Get/Incr route to exactly the bucket named by the leading digits and a bucket that is not READY answers a miss and touches nothing",
-         "not under contract: NewHStore's choice of buckets to open, upper-level listing, directory naming (string formatting)"),
+ "C15": ("path digits, bucket id = leading digits, InitTree derived configuration for 1/16/256 buckets, path parsing; every depth 0..2 enumerated; HStore.Get/Incr route to exactly the bucket named by the leading digits and a bucket that is not READY answers a miss and touches nothing; upper-level listing: updateNodesUpper gives the node of a bucket the bucket's root iff the bucket is served (else zero), ListUpper reports the 16 children of the node named by the path (variant contract, body only)",
+         "not under contract: NewHStore's choice of buckets to open, the fold over the 16 children of an upper node (obligations generated, not decided by the solvers); HTree.Update assumed incl. separation of node arrays; directory naming (fmt.Sprintf) checked by an exhaustive run over its whole domain, labelled bounded"),
  "C16": ("fnv1a (both copies), value hash, key-hash composition, CRC-32 table (256 ground obligations) and table step lemma proved for all inputs",
          "assumed + bounded differential: murmur3 library, the C CRC loop (crc32.write)"),
  "C02": ("the two replay loops of a restart, step by step, for every file content: buildHintFromData turns every record the scanner delivers from the start offset on into exactly one hint item carrying the record's key, key hash, version (tombstones included) and offset (ghost counters: items indexed = records scanned; step assertion per item); updateHtreeFromHint applies every item the hint reader delivers exactly once: a live version points the slot of its key hash at (chunk, offset) with the item's version and value hash, a tombstone removes the slot unconditionally (step assertions against the tree view; counters: items applied = items read)",
